@@ -45,6 +45,9 @@ def _dump_tables(data):
         if t == "GlyphOrder": continue
         try:
             b = io.BytesIO(); w = XMLWriter(b); f[t].toXML(w, f); w.close(); out[t] = b.getvalue()
+            if t == "CFF ":
+                # FontBBox is recalculated from the charstrings on compile (recalcBBoxes): a derived field like head's box
+                out[t] = b"\n".join(l for l in out[t].split(b"\n") if b"<FontBBox " not in l)
         except Exception as e:
             out[t] = ("EXC %r" % (e,)).encode()
     return out
